@@ -16,6 +16,7 @@ import (
 
 	"seehuhn.de/go/sfnt"
 	"seehuhn.de/go/sfnt/cff"
+	"seehuhn.de/go/sfnt/cmap"
 	"seehuhn.de/go/sfnt/glyf"
 	"seehuhn.de/go/sfnt/glyph"
 	"seehuhn.de/go/sfnt/opentype/coverage"
@@ -106,10 +107,30 @@ var (
 	fontNoNames *sfnt.Font // Go Regular without glyph names
 	fontNoCmap  *sfnt.Font // Go Regular without a character map
 	fontSomeNames *sfnt.Font // Go Regular, every third glyph without a name
+	fontExotic  *sfnt.Font // debug font whose cmap also maps non-ASCII spaces, controls and letters onto A..I
 )
+
+// exoticRunes are characters a font's character map may well contain and which
+// have no plain spelling inside a quoted string (non-ASCII spaces, separators,
+// soft hyphen) or are non-ASCII but printable.
+var exoticRunes = []rune{0x00A0, 0x2003, 0x3000, 0x00E9, 0x2028, 0x00AD, 0xFFFD, 0x1680, 0x0416}
 
 func setup(string, uint64) {
 	fontNamed = debug.MakeSimpleFont()
+	fontExotic = debug.MakeSimpleFont()
+	if best, _ := fontExotic.CMapTable.GetBest(); best != nil {
+		m := cmap.Format4{}
+		lo, hi := best.CodeRange()
+		for r := lo; r <= hi; r++ {
+			if g := best.Lookup(r); g != 0 {
+				m[uint16(r)] = g
+			}
+		}
+		for i, r := range exoticRunes {
+			m[uint16(r)] = best.Lookup('A' + rune(i))
+		}
+		fontExotic.InstallCMap(m)
+	}
 	fontGlyf = simgen.ReadGoFont(0)
 	fontNoNames = simgen.ReadGoFont(0)
 	fontNoNames.Outlines.(*glyf.Outlines).Names = nil
@@ -203,6 +224,135 @@ func runHistory(c *wk.Case) {
 	}
 	if d := simgen.DeepDiff(want.lookups, second.lookups, 0, false); d != "" {
 		c.Fail("history-dependence", "Parse/lookups", "after the glyph names were changed in place, Parse on the font object used before and on a fresh font object with the same names differ: %s\n--- description\n%s", d, text2)
+	}
+}
+
+var plainName = regexp.MustCompile(`^[A-Za-z_][A-Za-z0-9_]*$|^\.notdef$`)
+
+// runRanges: "parsing means what the documented syntax says (... ranges ...)".
+// A description that uses hyphenated glyph ranges - ascending, descending, down
+// to glyph 0 and up to the last glyph, end points written as names or numbers -
+// must parse to the same lookups as the description with every range written
+// out glyph by glyph, and within a small step budget.
+func runRanges(c *wk.Case) {
+	t := c.T
+	var font *sfnt.Font
+	var fontName string
+	switch t.Draw(3) {
+	case 0:
+		font, fontName = fontNamed, "debug(A-Z,names,cmap)"
+	case 1:
+		font, fontName = fontGlyf, "goregular(names,cmap)"
+	default:
+		font, fontName = fontNoNames, "goregular(no names,cmap)"
+	}
+	n := font.NumGlyphs()
+	pick := func() int {
+		switch t.Weighted(3, 2, 2, 5) {
+		case 0:
+			return 0
+		case 1:
+			return n - 1
+		case 2:
+			return t.Draw(min(n, 4))
+		}
+		return t.Draw(n)
+	}
+	spell := func(g int) string {
+		if t.Chance(1, 2) {
+			if name := font.GlyphName(glyph.ID(g)); plainName.MatchString(name) {
+				return name
+			}
+		}
+		return fmt.Sprint(g)
+	}
+	// a range a-b of at most 40 glyphs, and the same glyphs written out
+	mkRange := func(maxLen int) (short, long string, k int) {
+		a := pick()
+		b := pick()
+		if b > a+maxLen-1 {
+			b = a + maxLen - 1
+		} else if b < a-maxLen+1 {
+			b = a - maxLen + 1
+		}
+		var parts []string
+		step := 1
+		if b < a {
+			step = -1
+		}
+		for g := a; ; g += step {
+			parts = append(parts, fmt.Sprint(g))
+			if g == b {
+				break
+			}
+		}
+		// the lexer reads a hyphen directly followed by a digit as the sign
+		// of a number (as Explain's writeGlyphRange documents), so the
+		// hyphen is set apart from a numeric right end point
+		sep := []string{"-", " - ", " -", "- "}[t.Draw(4)]
+		right := spell(b)
+		if right[0] >= '0' && right[0] <= '9' && !strings.HasSuffix(sep, " ") {
+			sep += " "
+		}
+		return spell(a) + sep + right, strings.Join(parts, " "), len(parts)
+	}
+	var short, long string
+	switch t.Draw(3) {
+	case 0:
+		s1, l1, _ := mkRange(40)
+		short = "GPOS1: [" + s1 + "] -> y+10\n"
+		long = "GPOS1: [" + l1 + "] -> y+10\n"
+	case 1:
+		s1, l1, k := mkRange(12)
+		// a target range of the same length, ascending from a glyph that leaves room
+		from := t.Draw(max(1, n-k))
+		var tl []string
+		for g := from; g < from+k; g++ {
+			tl = append(tl, fmt.Sprint(g))
+		}
+		s2 := fmt.Sprintf("%d - %d", from, from+k-1)
+		if k == 1 {
+			s2 = fmt.Sprint(from)
+		}
+		short = "GSUB1: " + s1 + " -> " + s2 + "\n"
+		long = "GSUB1: " + l1 + " -> " + strings.Join(tl, " ") + "\n"
+	default:
+		s1, l1, _ := mkRange(20)
+		s2, l2, _ := mkRange(20)
+		short = "GSUB5:\n\tclass :a: = [" + s1 + "]\n\tclass :b: = [" + s2 + " " + s1 + "]\n\t/" + "1/ :a: :b: -> 1@0\n"
+		long = "GSUB5:\n\tclass :a: = [" + l1 + "]\n\tclass :b: = [" + l2 + " " + l1 + "]\n\t/" + "1/ :a: :b: -> 1@0\n"
+	}
+	c.Sample = map[string]any{"kind": "ranges", "font": fontName, "with_ranges": short, "written_out": long}
+	c.Logf("ranges: font %s\n--- with ranges\n%s--- written out\n%s", fontName, short, long)
+	c.SigString("ranges " + fontName + short)
+	saved := parseBudget
+	parseBudget = 20_000_000
+	defer func() { parseBudget = saved }()
+	got := parseInBubble(c, font, short)
+	want := parseInBubble(c, font, long)
+	c.Count("parses", 2)
+	c.Count("range_cases", 1)
+	res := "ok"
+	if want.err != nil {
+		res = "error"
+	}
+	c.Class("ranges|" + res)
+	for _, o := range []outcome{got, want} {
+		if o.panicked != nil {
+			c.FailPanic("Parse", o.panicked)
+		}
+		if o.deadlock || len(o.leaks) > 0 {
+			c.Fail("goroutine-leak", "ranges/"+strings.Join(dedupe(o.leaks), "+"), "goroutines left blocked: %v", o.leaks)
+		}
+	}
+	if (got.err == nil) != (want.err == nil) {
+		c.Fail("range-meaning", "Parse/error", "the description with ranges gives error %v, the same description with the ranges written out gives %v\n--- with ranges\n%s--- written out\n%s", got.err, want.err, short, long)
+	}
+	if got.err == nil {
+		c.Count("range_cases_parsed", 1)
+		if d := simgen.DeepDiff(want.lookups, got.lookups, 0, false); d != "" {
+			c.Fail("range-meaning", "Parse/lookups", "the description with ranges and the same description with the ranges written out differ: %s\n--- with ranges\n%s--- written out\n%s", d, short, long)
+		}
 	}
 }
 
@@ -338,7 +488,7 @@ func parseInBubble(c *wk.Case, font *sfnt.Font, text string) (out outcome) {
 		done := false
 		go func() {
 			pi := c.Guard(func() {
-				wk.Budget(300_000_000)
+				wk.Budget(parseBudget)
 				out.lookups, out.err = builder.Parse(font, text)
 			})
 			simhook.Next = ^uint64(0)
@@ -438,7 +588,9 @@ type constructed struct {
 
 func genText(c *wk.Case) (font *sfnt.Font, fontName, text, kind string, cons *constructed) {
 	t := c.T
-	switch t.Weighted(10, 4, 4, 1, 3) {
+	switch t.Weighted(10, 4, 4, 1, 3, 4) {
+	case 5:
+		font, fontName = fontExotic, "debug(A-Z,names,cmap with non-ASCII spaces and letters)"
 	case 4:
 		font, fontName = fontSomeNames, "goregular(every third glyph unnamed,cmap)"
 	case 0:
@@ -460,7 +612,7 @@ func genText(c *wk.Case) (font *sfnt.Font, fontName, text, kind string, cons *co
 		// has syntax for (simgen.ExprGen), unmutated: judged strictly
 		g := &simgen.ExprGen{T: t, N: min(font.NumGlyphs(), 60)}
 		if best, _ := font.CMapTable.GetBest(); best != nil {
-			for _, r := range []rune{'\\', '"', 'n', 't', '-', ']', 'A', 'f', 'x', 'y'} {
+			for _, r := range append([]rune{'\\', '"', 'n', 't', '-', ']', 'A', 'f', 'x', 'y'}, exoticRunes...) {
 				if gid := best.Lookup(r); gid != 0 && int(gid) < g.N {
 					g.Hot = append(g.Hot, gid)
 				}
@@ -521,7 +673,7 @@ func genText(c *wk.Case) (font *sfnt.Font, fontName, text, kind string, cons *co
 		g := &simgen.LookupGen{T: t, N: min(font.NumGlyphs(), 60)}
 		if best, _ := font.CMapTable.GetBest(); best != nil {
 			// glyphs whose characters need escaping or are special in the notation
-			for _, r := range []rune{'\\', '"', 'n', 't', '-', ']', 'A', 'f'} {
+			for _, r := range append([]rune{'\\', '"', 'n', 't', '-', ']', 'A', 'f'}, exoticRunes...) {
 				if gid := best.Lookup(r); gid != 0 {
 					g.Hot = append(g.Hot, gid)
 				}
@@ -604,11 +756,18 @@ func genText(c *wk.Case) (font *sfnt.Font, fontName, text, kind string, cons *co
 	return
 }
 
+// parseBudget is the step budget of one Parse call (termination oracle).
+var parseBudget uint64 = 300_000_000
+
 var lineNo = regexp.MustCompile(`^(\d+):`)
 
 func run(c *wk.Case) {
 	if c.T.Chance(1, 12) {
 		runHistory(c)
+		return
+	}
+	if c.T.Chance(1, 10) {
+		runRanges(c)
 		return
 	}
 	font, fontName, text, kind, cons := genText(c)
